@@ -1,5 +1,6 @@
 import I2N.Lemmas.Tools
 import I2N.Lemmas.ToolsChain
+import I2N.Lemmas.ToolsTerm
 /-!
 # C20 — Manual steps act once per selected vm and worker, in the given order
 
@@ -276,5 +277,227 @@ example :
 example : let r := runChain (fun s => s != "nosuch") (builtinStep (fun i => (i == 2, i != 0))) [] ["check", "noop", "boot", "check"]
     r.ret = .ok 1 ∧ r.executed = [("check", 0), ("noop", 1), ("boot", 2), ("check", 3)] ∧
       r.outcomes = [.ret 1, .retNone, .raised, .ret 0] := by decide
+
+/-! ## termination of the star traversal
+
+`mu g s w = 2·|candidates g s w| + [w is idle]` is the measure of worker `w`, `totMu` its sum over the workers of the
+graph, `relCount g w` the number of nodes relevant to `w` (its candidates at the start), `effSlices g sched s` the
+number of slices of `sched` that are not spent on a done worker.  None of the termination theorems needs `NamesWF`
+(only the tight bound `2·|nodes|` and the combination with the once-per-class theorems do).
+
+Scheduling assumption: **none** for the bound on the slices that do anything (`star_effective_slices_bounded`: every
+schedule, any order); for "all workers are done at the end" the only assumption is that no worker is starved, in the
+weakest counting form: worker `w` gets at least `2·relCount g w` slices *somewhere* in the schedule
+(`star_terminates`; order, position and the slices of the others are arbitrary).  Without it the statement is false: a
+schedule that never mentions a worker that has a node leaves that worker not done (`example` below). -/
+
+/-- **star_slice_lowers_measure** — in every reachable state (after any schedule `pre`), a slice of a worker that is
+not done strictly lowers that worker's measure, leaves the measure of every other worker as it is, and so strictly
+lowers the total measure. -/
+theorem star_slice_lowers_measure (g : Star) (pre : List Nat) (w : Nat)
+    (hnd : workerDone g (runSched g .star pre {}) w = false) :
+    mu g (runSched g .star (pre ++ [w]) {}) w < mu g (runSched g .star pre {}) w ∧
+    (∀ v, v ≠ w → mu g (runSched g .star (pre ++ [w]) {}) v = mu g (runSched g .star pre {}) v) ∧
+    totMu g (runSched g .star (pre ++ [w]) {}) < totMu g (runSched g .star pre {}) := by
+  have h := pcCand_runSched pre {} (pcCand_init g)
+  have e : runSched g .star (pre ++ [w]) {} = micro g .star (runSched g .star pre {}) w := by
+    rw [runSched_append, runSched_cons]; rfl
+  rw [e]
+  exact ⟨mu_micro_lt h hnd, fun v hv => mu_micro_other g _ hv, totMu_micro_lt h hnd⟩
+
+/-- … while a slice of a done worker — or of an index that is no worker of the graph, which always counts as done —
+is a no-op: the state (executions included) is literally unchanged. -/
+theorem star_done_slice_noop (g : Star) (pre : List Nat) (w : Nat) :
+    (g.workers.length ≤ w → workerDone g (runSched g .star pre {}) w = true) ∧
+    (workerDone g (runSched g .star pre {}) w = true →
+      runSched g .star (pre ++ [w]) {} = runSched g .star pre {}) := by
+  have h := pcCand_runSched pre {} (pcCand_init g)
+  refine ⟨fun hw => workerDone_out_of_range h hw, fun hd => ?_⟩
+  rw [runSched_append, runSched_cons, micro_done hd]; rfl
+
+/-- progress: as long as not all workers are done there is a worker of the graph whose slice lowers the measure -/
+theorem star_progress (g : Star) (pre : List Nat) (h : allDone g (runSched g .star pre {}) = false) :
+    ∃ w, w < g.workers.length ∧ totMu g (runSched g .star (pre ++ [w]) {}) < totMu g (runSched g .star pre {}) := by
+  simp only [allDone, List.all_eq_false, List.mem_range] at h
+  obtain ⟨w, hw, hnd⟩ := h
+  exact ⟨w, hw, (star_slice_lowers_measure g pre w (by simpa using hnd)).2.2⟩
+
+/-- **every schedule, no assumption**: of the slices of an arbitrary schedule at most `2·Σ_w relCount g w`
+`≤ 2·|workers|·|nodes|` are not no-ops on done workers.  (So a schedule that never wastes a slice on a done worker
+is at most that long, and by `star_progress` it can always be continued until all workers are done.) -/
+theorem star_effective_slices_bounded (g : Star) (sched : List Nat) :
+    effSlices g sched {} ≤ 2 * sumTo g.workers.length (relCount g) ∧
+    2 * sumTo g.workers.length (relCount g) ≤ 2 * (g.workers.length * g.nodes.length) := by
+  have := sum_relCount_le_mul g
+  exact ⟨effSlices_bound g sched, by omega⟩
+
+/-- … and with well-formed names (every node is relevant to its own worker only) the bound is `2·|nodes|`,
+independent of the number of workers: one slice to start and one to end each node, at most. -/
+theorem star_effective_slices_bounded_wf (g : Star) (hwf : NamesWF g) (sched : List Nat) :
+    effSlices g sched {} ≤ 2 * g.nodes.length := by
+  have := effSlices_bound g sched
+  have := sum_relCount_le g hwf
+  omega
+
+/-- **star_terminates** — every schedule `ext` in which each worker `w` of the graph occurs at least
+`2·relCount g w` times (in any order, interleaved with anything, started in any reachable state, i.e. after any
+schedule `pre`) ends with every worker done.  No assumption on the names. -/
+theorem star_terminates (g : Star) (pre ext : List Nat)
+    (hfair : ∀ w, w < g.workers.length → 2 * relCount g w ≤ ext.count w) :
+    allDone g (runSched g .star (pre ++ ext) {}) = true := by
+  have h := pcCand_runSched pre {} (pcCand_init g)
+  rw [runSched_append]
+  apply allDone_of_counts h
+  intro w hw
+  have h1 := mu_runSched_mono w pre {} (pcCand_init g)
+  have h2 := mu_init g w
+  have := hfair w hw
+  omega
+
+/-- … in particular with the uniform bound: `2·|nodes|` slices for every worker suffice. -/
+theorem star_terminates_uniform (g : Star) (pre ext : List Nat)
+    (hfair : ∀ w, w < g.workers.length → 2 * g.nodes.length ≤ ext.count w) :
+    allDone g (runSched g .star (pre ++ ext) {}) = true :=
+  star_terminates g pre ext fun w hw => by
+    have := relCount_le g w
+    have := hfair w hw
+    omega
+
+/-- … in particular round robin: from every reachable state, `2·|nodes|` rounds over the workers — an explicit
+schedule of `2·|nodes|·|workers|` slices — end with every worker done (no deadlock, no livelock). -/
+theorem star_round_robin_terminates (g : Star) (pre : List Nat) :
+    (roundRobin g.workers.length (2 * g.nodes.length)).length = 2 * g.nodes.length * g.workers.length ∧
+    allDone g (runSched g .star (pre ++ roundRobin g.workers.length (2 * g.nodes.length)) {}) = true :=
+  ⟨roundRobin_length _ _, star_terminates_uniform g pre _ fun _ hw => roundRobin_count hw _⟩
+
+/-- … and the usual notion of a schedule without starvation: the schedule is a sequence of rounds (of any length
+and order, with repetitions), every round contains every worker of the graph at least once, and there are at least
+`2·|nodes|` rounds. -/
+theorem star_terminates_rounds (g : Star) (pre : List Nat) (rounds : List (List Nat))
+    (hlen : 2 * g.nodes.length ≤ rounds.length)
+    (hall : ∀ r ∈ rounds, ∀ w, w < g.workers.length → w ∈ r) :
+    allDone g (runSched g .star (pre ++ rounds.flatten) {}) = true :=
+  star_terminates_uniform g pre _ fun w hw => by
+    have := count_flatten_ge (w := w) rounds (fun r hr => hall r hr w hw)
+    omega
+
+/-- **every schedule is as good as a short one** (no assumption): for every schedule there is a sub-schedule — the
+slices not spent on done workers, in the same order — of at most `2·|workers|·|nodes|` slices, none of them wasted,
+that ends in literally the same state (same executions in the same order, same registers). -/
+theorem star_every_schedule_short (g : Star) (sched : List Nat) :
+    ∃ short : List Nat, short.Sublist sched ∧ short.length ≤ 2 * (g.workers.length * g.nodes.length) ∧
+      effSlices g short {} = short.length ∧ runSched g .star short {} = runSched g .star sched {} := by
+  refine ⟨effSub g sched {}, effSub_sublist g sched {}, ?_, effSlices_effSub g sched {}, runSched_effSub g sched {}⟩
+  rw [effSub_length]
+  have := star_effective_slices_bounded g sched
+  omega
+
+/-- **the exact number**: in every schedule the slices that do something are two per finished execution and one per
+execution still running; so a schedule that ends with all workers done has spent exactly `2·|executions|` slices on
+workers that were not done (all others were no-ops). -/
+theorem star_effective_slices_exact (g : Star) (sched : List Nat) :
+    effSlices g sched {} + busyC g (runSched g .star sched {}) = 2 * (runSched g .star sched {}).execs.length ∧
+    (allDone g (runSched g .star sched {}) = true →
+      effSlices g sched {} = 2 * (runSched g .star sched {}).execs.length) := by
+  have h := effSlices_exact (g := g) sched {} (pcCand_init g) (finDropped_init g)
+  rw [busyC_init] at h
+  simp only [List.length_nil, Nat.mul_zero, Nat.zero_add, Nat.add_zero] at h
+  refine ⟨by omega, fun hd => ?_⟩
+  have := busyC_allDone hd
+  omega
+
+/-- once every worker is done nothing happens any more: whatever slices follow, the state — executions included —
+stays the same -/
+theorem star_done_stable (g : Star) (pre ext : List Nat) (hd : allDone g (runSched g .star pre {}) = true) :
+    runSched g .star (pre ++ ext) {} = runSched g .star pre {} := by
+  rw [runSched_append]
+  exact runSched_allDone ext _ (pcCand_runSched pre {} (pcCand_init g)) hd
+
+/-- the assumption of `star_terminates` cannot be dropped: a schedule that starves a worker that has a node does not
+end with all workers done, however long it is (here: worker 1 never scheduled; 40 slices of worker 0) -/
+example : let g : Star := { workers := ["net1", "net2"],
+                            nodes := [{ owner := 0, vms := ["vm1"], name := "t.vm1.net1", key := "t.vm1", params := [] },
+                                      { owner := 1, vms := ["vm1"], name := "t.vm1.net2", key := "t.vm1", params := [] }] }
+    allDone g (runSched g .star (List.replicate 40 0) {}) = false := by decide
+
+/-- termination needs no assumption on the names, the once-per-class theorems do: with worker ids of which one is a
+substring of the other (`net1`, `net11`: known finding `worker-id-substring-of-another`) the names are not well-formed,
+the fair schedule still ends done (by `star_terminates`), but `net1` has also executed the node parsed for `net11`. -/
+example : let g : Star := { workers := ["net1", "net11"],
+                            nodes := [{ owner := 0, vms := ["vm1"], name := "t.vm1.net1", key := "t.vm1", params := [] },
+                                      { owner := 1, vms := ["vm1"], name := "t.vm2.net11", key := "t.vm2", params := [] }] }
+    namesOk g = false ∧ relCount g 0 = 2 ∧ relCount g 1 = 1 ∧
+      allDone g (runSched g .star [0, 1, 0, 1, 0, 0] {}) = true ∧
+      (runSched g .star [0, 1, 0, 1, 0, 0] {}).execs = [(0, 0), (1, 1), (0, 1)] := by decide
+
+/-- **executions of a fairly scheduled step** — with well-formed names, under the assumption of `star_terminates`:
+every worker is done, every class of nodes that exists for a worker was executed by that worker exactly once, every
+execution is by the node's own worker, nothing else was executed, and whatever slices follow change nothing. -/
+theorem star_fair_exactly_once (g : Star) (hwf : NamesWF g) (sched : List Nat)
+    (hfair : ∀ w, w < g.workers.length → 2 * relCount g w ≤ sched.count w) :
+    allDone g (runSched g .star sched {}) = true ∧
+    (∀ w n, owns g w n → cnt g (runSched g .star sched {}) w (keyOf g n) = 1) ∧
+    (∀ e ∈ (runSched g .star sched {}).execs, owns g e.1 e.2) ∧
+    (∀ w k, 0 < cnt g (runSched g .star sched {}) w k → ∃ n, owns g w n ∧ keyOf g n = k) ∧
+    (∀ more, runSched g .star (sched ++ more) {} = runSched g .star sched {}) := by
+  have hd : allDone g (runSched g .star sched {}) = true := by
+    simpa using star_terminates g [] sched hfair
+  exact ⟨hd, fun w n ho => once_per_vm_worker g hwf sched hd w n ho, only_owner_executes g hwf sched,
+    fun w k h => nothing_else_executed g hwf sched w k h, fun more => star_done_stable g sched more hd⟩
+
+/-- **state steps, fairly scheduled: executions = selected vm objects × compatible workers, each once.**  For the
+graph a state step builds and every schedule that gives each worker `2·|nodes|` slices: all workers are done; for every
+worker, selected vm object and node the parser yields for the pair, that node's class ran exactly once on that
+worker; and every class that ran on a worker is the class of a node the parser yields for that worker and a selected
+vm object. -/
+theorem step_fair_exactly_once (workers vmObjs : List String) (parse : Parser) (pd step : Dict) (sched : List Nat)
+    (hwf : NamesWF { workers := workers, nodes := buildPerVm workers.length vmObjs parse pd step })
+    (hfair : ∀ w, w < workers.length → 2 * (buildPerVm workers.length vmObjs parse pd step).length ≤ sched.count w) :
+    allDone { workers := workers, nodes := buildPerVm workers.length vmObjs parse pd step }
+      (runSched { workers := workers, nodes := buildPerVm workers.length vmObjs parse pd step } .star sched {}) = true ∧
+    (∀ w, w < workers.length → ∀ vm ∈ vmObjs, ∀ p ∈ parse w [vm],
+      cnt { workers := workers, nodes := buildPerVm workers.length vmObjs parse pd step }
+        (runSched { workers := workers, nodes := buildPerVm workers.length vmObjs parse pd step } .star sched {}) w p.key = 1) ∧
+    (∀ w k, 0 < cnt { workers := workers, nodes := buildPerVm workers.length vmObjs parse pd step }
+        (runSched { workers := workers, nodes := buildPerVm workers.length vmObjs parse pd step } .star sched {}) w k →
+      w < workers.length ∧ ∃ vm ∈ vmObjs, ∃ p ∈ parse w [vm], p.key = k) := by
+  have hd : allDone { workers := workers, nodes := buildPerVm workers.length vmObjs parse pd step }
+      (runSched { workers := workers, nodes := buildPerVm workers.length vmObjs parse pd step } .star sched {}) = true := by
+    simpa using star_terminates_uniform { workers := workers, nodes := buildPerVm workers.length vmObjs parse pd step }
+      [] sched hfair
+  refine ⟨hd, fun w hw vm hvm p hp => step_once_per_vm_worker workers vmObjs parse pd step sched hwf hd w hw vm hvm p hp, ?_⟩
+  intro w k hpos
+  obtain ⟨n, ⟨nd, hn, hown⟩, hk⟩ := nothing_else_executed _ hwf sched w k hpos
+  obtain ⟨hlt, vm, hvm, _, p, hp, _, hkey⟩ := never_unselected workers.length vmObjs parse pd step nd
+    (List.mem_of_getElem? hn)
+  subst hown
+  refine ⟨hlt, vm, hvm, p, hp, ?_⟩
+  rw [← hk, ← hkey]
+  simp [keyOf, hn]
+
+/-- non-vacuity of the termination theorems: the graph of the example above (two workers, a vm with twins in two test
+sets, a vm with two variants that is incompatible with the second worker; 8 nodes).  Its names are well-formed; worker 0
+has 6 relevant nodes, worker 1 has 2; a schedule that is fair in the sense of `star_terminates` (12 and 4 slices, in
+blocks — not round robin) ends done with the four executions; only 8 of its 16 slices do something; the measure goes
+from 18 to 2 (= number of workers); after `[0, 1]` worker 0 is not done and its next slice (the end of the test with
+the twin) lowers its measure from 12 to 9. -/
+example :
+    let parse : Parser := fun w vms =>
+      if vms == ["vm1"] then [{ name := s!"all.check.vm1.net{w + 1}", key := "check.vm1" },
+                             { name := s!"nonleaves.check.vm1.net{w + 1}", key := "check.vm1" }]
+      else if vms == ["vm3"] && w == 0 then [{ name := "all.check.vm3.Kali.net1", key := "check.vm3.Kali", rank := 1 },
+                                             { name := "all.check.vm3.Ubuntu.net1", key := "check.vm3.Ubuntu" }]
+      else []
+    let g : Star := { workers := ["net1", "net2"], nodes := buildPerVm 2 ["vm1", "vm3", "vm3"] parse [("nets", "net1 net2")] (stateStep "check") }
+    let sched := List.replicate 5 0 ++ List.replicate 4 1 ++ List.replicate 7 0
+    NamesWF g ∧ relCount g 0 = 6 ∧ relCount g 1 = 2 ∧
+      (∀ w, w < g.workers.length → 2 * relCount g w ≤ sched.count w) ∧
+      allDone g (runSched g .star sched {}) = true ∧
+      (runSched g .star sched {}).execs = [(0, 0), (0, 3), (0, 2), (1, 6)] ∧
+      effSlices g sched {} = 8 ∧ totMu g {} = 18 ∧ totMu g (runSched g .star sched {}) = 2 ∧
+      workerDone g (runSched g .star [0, 1] {}) 0 = false ∧
+      mu g (runSched g .star [0, 1] {}) 0 = 12 ∧ mu g (runSched g .star [0, 1, 0] {}) 0 = 9 := by
+  refine ⟨namesWF_of_namesOk (by decide), by decide, by decide, by decide, by decide, by decide, by decide, by decide,
+    by decide, by decide, by decide, by decide⟩
 
 end I2N.Props.C20
